@@ -188,7 +188,7 @@ func varDefs(r *core.Rand, o *QOpts) []m.VarDef {
 			v.Default = Value(r, o, 2, true)
 		}
 		if o.VarDirs {
-			v.Dirs = dirs(r, o, false)
+			v.Dirs = dirs(r, o, true) // Directives[Const]
 		}
 		vs = append(vs, v)
 	}
